@@ -33,6 +33,11 @@ def run(F, R):
                     "%s.%s is read as %s %s, expected %s %s" % (short, key, "required" if f["required"] and not f["default"] else "optional", f["type"], "required" if want_req else "optional", typ))
         extra_required = [k for k, f in got.items() if k not in exp["fields"] and f["required"] and not f["default"]]
         R.check("C16-R1", "no-new-required-key:" + short, not extra_required, "no required key beyond the protocol's", "%s additionally requires %s: valid documents are rejected" % (ty, extra_required))
+        ids = s.get("identifiers")
+        if ids is not None:
+            # the names the field visitor answers to are exactly the keys (an alias makes another attribute — e.g. an
+            # extension attribute called "name" — land in a protocol field, or two spellings collide as duplicates)
+            R.check("C16-R1", "no-alias:" + short, sorted(ids) == sorted(got), "the visitor recognises exactly the %d keys" % len(got), "%s also answers to %s" % (ty, sorted(set(ids) - set(got)) or ids))
         R.check("C16-R1", "flatten:" + short, s["flatten"] == exp["flatten"], str(s["flatten"]), "%s flattens %s, expected %s" % (ty, s["flatten"], exp["flatten"]))
         if exp["flatten"]:
             R.check("C16-R1", "unknown-keys-kept:" + short, s.get("unknown_keys") == "collected", "unknown attributes are collected for the flattened members", "%s drops unknown attributes" % ty)
